@@ -17,7 +17,7 @@ RULE = ("M {1,2,5} x backlog {M+1, 3M, 50} x durations {0, 1ms, 1s, 6s} x tasks_
         "fingerprint = (broker, M, backlog, duration, tasks_limit, queues) | (plugin, sequence); trivial = none")
 ASSUMPTIONS = ["Redis and RabbitMQ are wire-level fakes", "virtual time; run() must return within longest actor + graceful period + 10 s after the M-th completion"]
 EVAL_COUNTER = "runs_judged"
-REQUIRED = ["runs_judged", "leftovers_checked", "plugin_enqueues", "runs_limit_lt_backlog_concurrent", "late_arrival_runs", "runs_with_due_recurring_jobs", "runs_with_a_failing_result_store_inside_the_budget"]
+REQUIRED = ["runs_judged", "leftovers_checked", "plugin_enqueues", "runs_limit_lt_backlog_concurrent", "late_arrival_runs", "runs_with_due_recurring_jobs", "runs_with_a_failing_result_store_inside_the_budget", "budgets_ending_next_to_a_message_of_the_same_id"]
 CASE_TIMEOUT = 150
 
 
@@ -44,6 +44,12 @@ def gen_cases(tier, seed):
         for M, tl, dd in (((2, 2, 1.0), (3, 1000, 6.0)) if tier == "quick" else ((2, 2, 1.0), (3, 1000, 6.0), (2, 1000, 0.25), (5, 5, 1.0), (3, 3, "mixed"))):
             cases.append({"type": "limit", "kind": kind, "M": M, "backlog": M + 3, "d": dd, "tl": tl, "nq": 1, "seed": rnd.randrange(10**6), "late": False, "leak": False,
                           "latency": None if kind == "mem" else 0.002, "store_crash": True})
+    # the message beyond the budget carries the id of the last one within it (an order id used for two priorities / two actors)
+    # (not on Redis: there a leftover taken by the stopping worker's prefetcher can stay marked in flight, and same-id messages
+    # share that mark - both listed findings, C10 `never-started` / C07 `in-flight-mark`)
+    for kind in ("mem", "rabbit"):
+        for variant in ("priority", "topic"):
+            cases.append({"type": "same_id", "kind": kind, "variant": variant, "seed": rnd.randrange(10**6), "latency": None if kind == "mem" else 0.002})
     for c in cases:
         # every third backlog: a third of its jobs are recurring ones whose first slot comes up just before the worker starts
         c["recurring_due"] = c["seed"] % 3 == 0
@@ -248,6 +254,47 @@ async def limit_scenario(loop, case, out, stats, fps, samples):
         await w.close()
 
 
+async def same_id_scenario(loop, case, out, stats, fps, samples):
+    from repid import PrioritiesT
+    from rv.wl import World
+
+    kind, variant = case["kind"], case["variant"]
+    w = World(loop, kind, converter="basic", seed=case["seed"], latency=case["latency"])
+    try:
+        await w.open()
+        r = w.router()
+        w.scripted_actor(r, "charge", queue="q")
+        w.scripted_actor(r, "receipt", queue="q")
+        await w.conn.message_broker.queue_declare("q")
+        kw = dict(queue="q", retries=0, timeout=timedelta(seconds=30), store_result=False)
+        # consumption order: first, then "order-7" (second), then the other "order-7" (third, beyond the budget of 2)
+        await w.job("charge", "first", {"do": "ok", "d": 0.2, "label": "first"}, priority=PrioritiesT.HIGH, args_id="a1", **kw).enqueue()
+        if variant == "priority":
+            await w.job("charge", "order-7", {"do": "ok", "d": 0.2, "label": "second"}, priority=PrioritiesT.HIGH, args_id="a2", **kw).enqueue()
+            await w.job("charge", "order-7", {"do": "ok", "d": 0.2, "label": "third"}, priority=PrioritiesT.LOW, args_id="a3", **kw).enqueue()
+        else:
+            await w.job("charge", "order-7", {"do": "ok", "d": 0.2, "label": "second"}, priority=PrioritiesT.HIGH, args_id="a2", **kw).enqueue()
+            await w.job("receipt", "order-7", {"do": "ok", "d": 0.2, "label": "third"}, priority=PrioritiesT.LOW, args_id="a3", **kw).enqueue()
+        for M, who in ((2, "first worker"), (1, "second worker")):
+            worker = w.worker([r], messages_limit=M, tasks_limit=1, graceful_shutdown_time=10.0, handle_signals=[])
+            try:
+                await asyncio.wait_for(worker.run(), 20.0)
+            except asyncio.TimeoutError:
+                out.append(V("leftover_touched" if who == "second worker" else "no_return", kind, f"same-id-beyond-the-limit/{variant}", f"the {who} (messages_limit={M}) had not returned after 20 s; executions so far "
+                             f"{[e.get('label') for e in w.events('actor_start')]}; places of order-7: {w.rig.snapshot(detail=True).get('order-7')}"))
+                break
+            await asyncio.sleep(0.3)
+        labels = [e.get("label") for e in w.events("actor_start")]
+        stats["runs_judged"] += 1
+        stats["budgets_ending_next_to_a_message_of_the_same_id"] += 1
+        fps.add(f"{kind}/same_id/{variant}")
+        if sorted(labels) != ["first", "second", "third"] and not out:
+            out.append(V("leftover_touched", kind, f"same-id-beyond-the-limit/{variant}", f"executions {labels}, expected first, second (budget of 2) and then third by the next worker; order-7 is at {w.rig.snapshot(detail=True).get('order-7')}"))
+        stats["unknown_server_commands"] += w.rig.unknown_commands()
+    finally:
+        await w.close()
+
+
 async def plugin_scenario(loop, case, out, stats, fps, samples):
     from repid.testing.modifiers import RunWorkerOnEnqueueModifier
     from rv.wl import World
@@ -314,7 +361,7 @@ def run_case(case):
 
     stats = collections.Counter()
     out, fps, samples = [], set(), []
-    fn = limit_scenario if case["type"] == "limit" else plugin_scenario
+    fn = limit_scenario if case["type"] == "limit" else same_id_scenario if case["type"] == "same_id" else plugin_scenario
     res = vl.run(lambda loop: fn(loop, case, out, stats, fps, samples), max_steps=6_000_000, seed=case["seed"])
     if res.exc is not None:
         if isinstance(res.exc, vl.StepLimit):
